@@ -280,7 +280,7 @@ def run_task(task):
     if not ok:
         # the model says infeasible: the spec must have no solution either
         res["obligations"] += 1
-        s = smt.solver(90000)
+        s = smt.solver(_qt(90000))
         s.add(scons)
         r = smt.check(s)
         res["samples"].append({"obligation": "model not solved => spec has no solution", "instance": desc, "lp_status": lp.honest_status, "spec": r})
@@ -298,7 +298,7 @@ def run_task(task):
     res["nontrivial"] += 1 if o_h > 0 or m.k >= 2 else 0
     enc = smt.Enc(lp)
     res["obligations"] += 1
-    v, _ = smt.certify_optimum(enc.cons, enc.min_obj, o_h, max(delta, Fraction(1, 10 ** 7)), 90000)
+    v, _ = smt.certify_optimum(enc.cons, enc.min_obj, o_h, max(delta, Fraction(1, 10 ** 7)), _qt(90000))
     if v == "equal":
         res["discharged"] += 1
     elif v == "unknown":
@@ -306,7 +306,7 @@ def run_task(task):
     else:
         raise HarnessError(f"translator validation (b) failed: z3 optimum of the captured LP differs from HiGHS's {float(o_h)} ({v})")
     res["obligations"] += 1
-    v, mdl = smt.certify_optimum(scons, sobj, o_h, delta, 120000)
+    v, mdl = smt.certify_optimum(scons, sobj, o_h, delta, _qt(120000))
     res["samples"].append({"obligation": "certified optimum of the captured LP == certified optimum of the independent spec", "instance": desc, "lp_optimum": float(o_h), "verdict": v})
     if v == "equal":
         res["discharged"] += 1
@@ -477,6 +477,12 @@ def _consistency(task, G, m, key, res, how, o_h, delta, vals=None):
                                   "replay": {"kind": how, "task": task, "values": [str(x) for x in (vals or [])], "o_h": str(o_h)}})
     else:
         res["discharged"] += 1
+
+
+def _qt(ms):
+    """per-query z3 budget: the quick tier caps it at 35 s (a timed-out query is counted inconclusive, never as held)"""
+    import os
+    return min(ms, 35000) if os.environ.get("FPVERIF_TIER", "quick") == "quick" else ms
 
 
 def replay(data):
